@@ -327,6 +327,15 @@ def lifetime(repo: Repo, chk: Check) -> None:
         raise AnalysisError(f"{f.where}: recording of uses not found")
     uses_name = apps[0].node.func.value.value.id  # type: ignore[attr-defined]
     top = all(depends_on(fl.cone(s.node.func.value.slice, s, inline=0), "get_top_level_op($_)") for s in apps)  # type: ignore[attr-defined]
+    # every use counts, whatever kind of op it is: a buffer (or a view of it) handed to the terminator is alive until the function returns
+    for n_a, s in enumerate(apps, 1):
+        lp_ = [l for l in s.loops if isinstance(l, ast.For)]
+        head_ = next((x for x in fl.stmts(ast.For) if lp_ and x.node is lp_[-1]), None)
+        base_ = {fa.text for alt in head_.state.alts for fa in alt.facts.values()} | set(head_.fact_texts) if head_ is not None else set()
+        extra_ = [t for t in s.fact_texts if t not in base_]
+        chk.result(not extra_, "C11.lifetime", f"{f.key}:every-use#{n_a}", s.where(), "a use is recorded unconditionally",
+                   f"a use extends the lifetime only if {extra_[:2]}: a buffer whose last use is filtered out (a memref returned by func.return) is dead after its previous use, "
+                   "a buffer allocated in between gets the same address range and a dealloc is placed in front of the return", s.fact_texts)
     chk.result(top, "C11.lifetime", f"{f.key}:top-level", apps[0].where(), "every use is mapped to its enclosing top-level op",
                "a use is recorded without mapping it to its top-level op: uses nested in loops do not extend the lifetime")
     # where do the visited uses come from: op.results[0].uses directly, or a (recursive) helper over it
